@@ -155,6 +155,7 @@ theorem step_preserves (P : Spec → Prop) (hP : ∀ c e, P c → P (applyDb e c
     (fixed : Bool) (w : World) (c : WCmd) (h : P w.db) : P (stepG fixed w c).w.db := by
   cases c with
   | rmCache u s f => exact h
+  | clearCache u => exact h
   | run u c crash =>
     obtain ⟨m, dirs, ex, es, -, he⟩ := step_db fixed w u c crash
     rw [he]
